@@ -138,6 +138,10 @@ def r2_r3_mem(ctx: Context) -> None:
                 removed.append((m, n))
             elif isinstance(n, ast.Delete) and any(isinstance(t, ast.Subscript) and self_attr(t) in tables for t in n.targets):
                 removed.append((m, n))
+            elif isinstance(n, ast.Assign) and any(isinstance(t, ast.Attribute) and isinstance(t.value, ast.Name) and t.value.id == "self" and t.attr in tables for t in n.targets):
+                # the table itself is replaced (rebuilt without some keys, or from a snapshot): every lock handed out from the
+                # old table - or inserted into it since the snapshot - is gone from the new one
+                removed.append((m, n))
     ctx.add("R3", f"{mem.qualname}::per-invocation-locks-are-never-discarded", not removed, removed[0][0].loc(removed[0][1]) if removed else f.loc(), "" if not removed else f"`{ast.unparse(removed[0][1])[:60]}` in {removed[0][0].name} removes a per-invocation lock while another thread may be blocked on that very object: the blocked thread and the next arrival (which creates a fresh lock) both enter read-validate-write")
 
 
@@ -330,6 +334,87 @@ def r6_body(ctx: Context, sm) -> None:
     ctx.add("R6", "table::PENDING-only-from-released", not bad, sm.module.relpath, "" if not bad else f"PENDING can be entered from {bad}, which still carry an owner")
 
 
+def _always_raises(stmts: list[ast.stmt]) -> bool:
+    """every path through the statement list ends in `raise` (syntactic, conservative)"""
+    if not stmts:
+        return False
+    last = stmts[-1]
+    if isinstance(last, ast.Raise):
+        return True
+    if isinstance(last, ast.If):
+        return bool(last.orelse) and _always_raises(last.body) and _always_raises(last.orelse)
+    if isinstance(last, (ast.With, ast.AsyncWith)):
+        return _always_raises(last.body)
+    return False
+
+
+def r7_refusal_propagates(ctx: Context) -> None:
+    ctx.rule("R7", "a refused request is an error for its caller: in set_invocation_status (and in each backend's atomic transition around status_record_transition) no `except` around the transition ends without raising - the claiming generators skip an invocation only because the PENDING request RAISED; a refusal turned into a normal return hands the loser of a claim race the invocation the winner holds")
+    bo = ctx.repo.cls("BaseOrchestrator")
+    targets: list[tuple[FuncInfo, str]] = []
+    f = bo.methods.get("set_invocation_status")
+    if f is None:
+        raise AnalysisError("anchor-vanished: BaseOrchestrator.set_invocation_status")
+    targets.append((f, "_atomic_status_transition"))
+    for o in ctx.repo.overrides(bo, "_atomic_status_transition"):
+        if not o.is_abstract:
+            targets.append((o, "status_record_transition"))
+    n = 0
+    for fn_, callee in targets:
+        pm = parent_map(fn_.node)
+        for c in [x for x in calls_in(fn_.node) if call_name(x) == callee]:
+            n += 1
+            bad = None
+            cur: ast.AST = c
+            while True:
+                par = pm.get(id(cur))
+                if par is None:
+                    break
+                if isinstance(par, ast.Try) and any(cur is b_ or any(cur is y for y in ast.walk(b_)) for b_ in par.body):
+                    for h in par.handlers:
+                        if not _always_raises(h.body):
+                            bad = h
+                cur = par
+            ctx.add("R7", f"{fn_.qualname}::refusal-of::{callee}::propagates", bad is None, fn_.loc(bad) if bad is not None else fn_.loc(c), "" if bad is None else f"`except {ast.unparse(bad.type) if bad.type is not None else ''}` around {callee} has a path that ends without `raise`: the request was refused (wrong predecessor, not the owner, lost race) and the caller continues as if it had been granted")
+    ctx.floor("R7", "transition call sites", n, 3)
+
+
+def r8_own_identity(ctx: Context) -> None:
+    ctx.rule("R8", "a runner requests statuses under an identity it owns: every runner id given to new_child_context / RunnerContext in the runner package is a parameter, a key of the runner's own worker registry, or freshly generated - never a value taken from a caught error or read back from the orchestrator / state backend (the current owner's id): ownership is checked by comparing ids, so a context built from the owner's id moves another runner's invocation")
+    n = 0
+    for f in ctx.repo.all_functions():
+        if not f.module.name.startswith("pynenc.runner"):
+            continue
+        handler_names = {h.name for h in ast.walk(f.node) if isinstance(h, ast.ExceptHandler) and h.name}
+        read_back: set[str] = set()
+        for st in walk_no_nested(f.node):
+            if isinstance(st, ast.Assign) and isinstance(st.value, (ast.Call, ast.Attribute)):
+                txt = ast.unparse(st.value)
+                if any(k in txt for k in ("orchestrator.", "state_backend.", "get_invocation_status_record", "status_record")):
+                    read_back |= {t.id for t in st.targets if isinstance(t, ast.Name)}
+        for c in calls_in(f.node):
+            nm = call_name(c)
+            if nm not in ("new_child_context", "RunnerContext"):
+                continue
+            v = next((k.value for k in c.keywords if k.arg == "runner_id"), None)
+            if v is None and nm == "new_child_context" and len(c.args) > 1:
+                v = c.args[1]
+            if v is None and nm == "RunnerContext" and len(c.args) > 1:
+                v = c.args[1]
+            if v is None:
+                continue
+            n += 1
+            names = {x.id for x in ast.walk(v) if isinstance(x, ast.Name)}
+            txt = ast.unparse(v)
+            why = None
+            if names & handler_names:
+                why = f"`{txt}` comes from the caught error `{sorted(names & handler_names)[0]}`"
+            elif names & read_back or any(k in txt for k in ("orchestrator.", "state_backend.")):
+                why = f"`{txt}` is read back from the orchestrator / state backend"
+            ctx.add("R8", f"{f.qualname}::runner-id-is-own::{nm}", why is None, f.loc(c), "" if why is None else f"{why}: the context carries the id of whoever owns the invocation now, the ownership check passes for a runner that does not own it - e.g. a stopping runner kills and re-routes an invocation another runner is executing, and the body runs in two workers at once")
+    ctx.floor("R8", "runner contexts built with an explicit id", n, 3)
+
+
 def run(ctx: Context) -> None:
     sm = extract(ctx.repo)
     all_sites = sqlmini.sites(ctx.repo)
@@ -339,6 +424,8 @@ def run(ctx: Context) -> None:
     c01.r4_single_writer(ctx, sm)
     r5_losers(ctx)
     r6_body(ctx, sm)
+    r7_refusal_propagates(ctx)
+    r8_own_identity(ctx)
     ctx.exhaustive = True
     ctx.not_decided += [
         "that SQLite BEGIN IMMEDIATE / threading.Lock provide mutual exclusion (trusted base)",
